@@ -752,18 +752,24 @@ def run(chk):
                        "non_negative_tucker_hals (fista / active_set, sparsity, fixed modes), constrained_parafac(non_negative = True / mode dict, inner caps 1/3/10), parafac2 (tensor or ragged "
                        "slices, nn_modes incl. 'all', line search on/off, caps 0-11) + dedicated line-search runs + non_negative_tucker(_hals) with init='svd' on standard-normal data at caps 0/1/5 "
                        "+ parafac2(nn_modes=[0,2], default line search) on signed / sparse slices at odd caps 7/9/11 (140 / 600 runs) + non_negative_parafac_hals with the last mode fixed and weights far from 1 at caps 0/1 "
-                       "+ every entry point with tol=0.5 at caps 3-5 (the convergence exits) + direct solver calls; predicate: every entry of a declared mode, weights, core >= 0; "
+                       "+ every entry point with tol=0.5 at caps 3-5 (the convergence exits) + round 7 streams (own generator): non_negative_parafac_hals / _tucker_hals with sparsity_coefficients > 0 on signed data "
+                       "(entries on the bound), constrained_parafac with per-mode boolean lists / negative dictionary keys / False values, parafac2 with a caller-made _BroThesisLineSearch whose own nn_modes cover / lack the "
+                       "declared modes (lacking: known finding) + direct solver calls; predicate: every entry of a declared mode, weights, core >= 0; "
                        "a case is non-trivial always (no all-size-1 / all-zero tensors are generated); distinct key = (entry point, shape, class, init, cap, nn_modes, options). "
                        "part B: dyadic few-bit inputs (formula layer, MU runs) / float inputs (fixed-point runs, initialisers, constrained_parafac, one PARAFAC2 outer iteration), model evaluated "
                        "inside Coq, tolerance atol + 1e-9 (|a|+|b|). corr:C10-static: the bodies of non_negative_parafac, non_negative_parafac_hals (nn_modes='all'), non_negative_tucker, "
                        "non_negative_tucker_hals are re-translated from the current source by an ast translator into programs of Model/NonnegSign.v and the sign analysis (sound by "
-                       "C10_sign_analysis_sound) is evaluated on them inside Coq: every assignment of the body, in any order, keeps weights / factors / core entrywise >= 0")
+                       "C10_sign_analysis_sound) is evaluated on them inside Coq: every assignment of the body, in any order, keeps weights / factors / core entrywise >= 0; corr:C10-flow: see FLOW_TARGETS "
+                       "(round 7: peeled active_set_nnls from a signed start, hals_nnls / fista flow-sensitively, constrained_parafac per registered mode, line_step for any nn_modes list); round 7 executed ops: OP2RunG "
+                       "(partial nn_modes, own / user line search), OCcpE (raw non_negative argument), OHalsCpE with updated modes that are not declared")
     chk.assumptions = ["exact-arithmetic semantics: floating-point rounding is not modelled (bounded empirically by the toleranced comparison); IEEE inf / NaN are outside the model",
                        "every data- or LAPACK-dependent quantity of the iteration skeletons is an arbitrary function argument (the theorems quantify over all of them); only the formula layer "
                        "and the complete multiplicative-update runs are executed against the implementation",
                        "tl.norm is the Euclidean norm: a rational square root with ~157 correct bits in the executed model, sqrt over R in the proofs",
                        "runs in which the implementation raises (singular solves on degenerate data) return nothing and are not judged"]
-    chk.trusted += ["the ast translator harness/props/C10_sign.py (Python expression -> bag-of-entries expression; versioning of re-assigned locals; alias classes for element updates; "
+    chk.trusted += ["round 7 translator rules: peel (a named loop runs at least once; C10_flow_peel_exact), msplit (one mode per iteration of a mode loop; registered modes = those with constraint 'non_negative'; "
+                    "`order` is the index variable - checked; self-map X[c] = E(X[c]); `for mode in self.nn_modes` replaces every declared array)",
+                    "the ast translator harness/props/C10_sign.py (Python expression -> bag-of-entries expression; versioning of re-assigned locals; alias classes for element updates; "
                     "`return a, b` returns the decomposition first; the specialisation `mode in nn_modes` = True for nn_modes='all')",
                     "numpy einsum recomputation of the non_negative_tucker numerators (conditioning test and the formula-level OMuTk cases)",
                     "the momentum coefficients of fista are recomputed in Python (data independent) and passed to the model as exact rationals"]
@@ -1458,6 +1464,7 @@ def run_correspondence(chk, rng):
     groups += corr_parafac2_run(rng, chk.tier)
     groups += corr_parafac2_run_g(random.Random(chk.seed * 7919 + 11), chk.tier)
     groups += corr_ccp_spec(random.Random(chk.seed * 7919 + 13), chk.tier)
+    groups += corr_hals_cp_undeclared(random.Random(chk.seed * 7919 + 17), chk.tier)
     groups += corr_line(rng, chk.tier, chk)
     groups += corr_sign(chk)
     groups += corr_flow(chk)
@@ -1740,6 +1747,17 @@ FLOW_TARGETS = [
      _P2_TRUE[:2] + _P2_TRUE[4:], _P2_FALSE + ("line_iter", "linesearch and iteration % 2 == 0 and (iteration > 5)"), _P2_CALLEES),
     ("constrained_parafac (non_negative=True, any built-in or entrywise non-negative user init)", "decomposition/_constrained_cp.py", "constrained_parafac",
      {"init": "SgNN"}, ("constraint == 'non_negative'",), ("n_const is None", "constraint is None"), _CC_CALLEES),
+    # round 7: the line-search step for ANY nn_modes LIST: the extrapolated factors of the declared modes (self.nn_modes) are all replaced by their clipped values; a rejected
+    # jump returns the current factors (declared modes >= 0 by assumption)
+    ("_BroThesisLineSearch.line_step (ANY nn_modes list: the factors of the declared modes, accepted or rejected jump)", "decomposition/_parafac2.py", ("line_step", "_BroThesisLineSearch"),
+     {"factors@D": "SgNN"}, ("self.nn_modes",), ("self.nn_modes == 'all'",), {}, None, None,
+     {"msplit": {"lists": {"factors": (), "factors_ls": (), "factors_last": ()}, "declared_iters": ("self.nn_modes",)}}),
+    # round 7: ANY per-mode non_negative argument (list / dictionary): the guard is implicit (validate_constraints(..., order=mode) inside the inlined proximal_operator):
+    # `factors` is split into the arrays of the REGISTERED modes and the others, every mode loop is analysed once per case
+    ("constrained_parafac (ANY per-mode non_negative list / dictionary: the factors of the registered modes; built-in or entrywise non-negative user init)",
+     "decomposition/_constrained_cp.py", "constrained_parafac", {"init": "SgNN"}, (), ("n_const is None",), _CC_CALLEES, None, None,
+     {"msplit": {"lists": {"factors": ("mode", "i")}, "declared_true": ("constraint == 'non_negative'",), "declared_false": ("constraint is None",),
+                 "undeclared_false": ("constraint == 'non_negative'",)}}),
     # ANY nn_modes ('all', None, a list): `factors` is split into the arrays of the declared modes (guard `mode in nn_modes`) and the others; the verdict is
     # about the weights and the declared factors; cp_normalize is used through its declared-modes contract (c_cpnorm_D)
     ("non_negative_parafac_hals (any nn_modes: weights and the factors of the declared modes)", "decomposition/_nn_cp.py", "non_negative_parafac_hals",
@@ -1766,7 +1784,9 @@ def corr_flow(chk):
         try:
             with warnings.catch_warnings():
                 warnings.simplefilter("ignore")
-                r = S.translate_flow(src(rel), fname, signs, assume, assume_f, {k: (src(v[0]), v[1], v[2]) for k, v in callees.items()}, split=split, records=records, **extra)
+                fn_, cls_ = (fname, None) if isinstance(fname, str) else fname
+                r = S.translate_flow(src(rel), fn_, signs, assume, assume_f, {k: (src(v[0]), v[1], v[2]) for k, v in callees.items()}, split=split, records=records,
+                                     **dict(extra, **({"cls": cls_} if cls_ else {})))
         except (S.Untranslatable, SyntaxError, OSError, IndexError, KeyError) as e:
             chk.broken.append({"what": f"corr:C10-flow: {label} ({rel}) cannot be translated into the structured sign-analysis language (broken tie)",
                                "detail": f"{type(e).__name__}: {e}"[:300]})
@@ -1856,6 +1876,8 @@ def corr_parafac2_run_g(rng, tier):
         R = 1 if (tier == "quick" or kind != "none" or rng.random() < 0.5) else 2
         n = rng.choice([7, 9]) if kind != "none" else (rng.choice([2, 3]) if R == 1 else 2)
         nn = rng.choice([[0, 2], [0, 2], [2], [0], [1, 2], [0, 1]])
+        if kind == "own":          # single-mode and two-mode lists in turn (the object parafac2 builds must carry exactly these)
+            nn = ([2], [0, 2], [0], [1, 2])[(k // 4) % 4]
         slices = [np.array([[rng.gauss(0, 1) for _ in range(K)] for _ in range(J)]) for _ in range(I)]
         if rng.random() < 0.3:
             slices = [np.abs(s_) for s_ in slices]
@@ -1972,4 +1994,50 @@ def corr_ccp_spec(rng, tier):
         out.append((op, Fraction(scale) / 10 ** 8, [], list(r[1]),
                     {"corr": "constrained_parafac (raw non_negative argument)", "tensor": X, "weights": w, "factors": Fs, "non_negative": repr(spec), "form": form,
                      "fixed": fixed, "n": n, "inner": inner}))
+    return out
+
+
+def corr_hals_cp_undeclared(rng, tier):
+    """round 7: complete non_negative_parafac_hals runs in which some UPDATED modes are NOT declared (nn_modes a strict sub-list / None): those modes are
+    least-squares solves (tl.solve; elimination inside Coq), the declared ones HALS; raw options as in corr_hals_cp.  Well-conditioned runs only (the weighted
+    Hadamard Gram of the other factors before and after the run)."""
+    from tensorly.decomposition import non_negative_parafac_hals
+    out = []
+    nrun = 4 if tier == "quick" else 30
+    for k in range(nrun):
+        order = rng.choice([2, 3, 3])
+        shape = tuple(rng.randint(2, 3 if tier == "quick" else 4) for _ in range(order))
+        rank = rng.choice([1, 2])
+        X = gen_float_tensor(rng, shape, rng.choice(["signed", "signed", "nonneg", "sparse"]))
+        # columns with distinct dominant rows: the Hadamard Gram matrices stay well conditioned
+        Fs = [np.array([[0.3 * rng.random() + 0.05 + (1.0 if i % rank == j else 0.0) for j in range(rank)] for i in range(s)]) for s in shape]
+        w = np.ones(rank) if rng.random() < 0.6 else np.array([rng.choice([0.5, 2.0, 1.0]) for _ in range(rank)])
+        nm = rng.random() < 0.3
+        nn = None if rng.random() < 0.2 else sorted(rng.sample(range(order), rng.randint(1, order - 1)))
+        sps = None if rng.random() < 0.6 else [rng.choice([None, 0.0, 0.1]) for _ in range(order)]
+        n = 1 if rank == 2 else rng.choice([1, 2])
+        fixed_raw = rng.choice([None, [], None])
+        st, r = quiet_call(lambda: non_negative_parafac_hals(X.copy(), rank, n_iter_max=n, init=(w.copy(), [f.copy() for f in Fs]), tol=0, normalize_factors=nm,
+                                                             fixed_modes=None if fixed_raw is None else list(fixed_raw), nn_modes=nn,
+                                                             sparsity_coefficients=None if sps is None else list(sps)), timeout=120)
+        if st != "ok" or not finite_all(r[0], *r[1]):
+            continue
+        def hadamard_ok(fs):
+            for m in range(order):
+                G = np.ones((rank, rank))
+                for i, f in enumerate(fs):
+                    if i != m:
+                        f = np.asarray(f); G = G * (f.T @ f)
+                if not np.all(np.isfinite(G)) or np.linalg.cond(G) > 1e5 or abs(np.linalg.det(G)) < 1e-9:
+                    return False
+            return True
+        if not (hadamard_ok(Fs) and hadamard_ok(r[1])):
+            continue
+        nn_lit = "NNNone" if nn is None else f"(NNList {C.nat_list(nn)})"
+        op = (f"(OHalsCpE {C.qtensor(shape, [float(x) for x in X.reshape(-1)])} {qvec_lit(w)} {qmats_lit(Fs)} {optfixed_lit(fixed_raw)} {nn_lit} "
+              f"{spopt_lit(sps)} {C.boolc(nm)} {n}%nat {C.q(1e-8)})")
+        scale = max(1.0, max(float(np.abs(f).max()) for f in r[1]), float(np.abs(r[0]).max()))
+        out.append((op, Fraction(scale) / 10 ** 7, r[0], list(r[1]),
+                    {"corr": "non_negative_parafac_hals (updated modes that are not declared: least-squares solves)", "tensor": X, "weights": w, "factors": Fs, "normalize": nm,
+                     "fixed": fixed_raw, "nn_modes": nn, "sparsity": sps, "n": n}))
     return out
